@@ -14,7 +14,9 @@ RULE = ("constructors: the full product class x language x entity_substitution x
         "None, library and user functions, objects}; rendering: (a) three probe trees x the product class x 4 substitution "
         "functions x 3 void prefixes x 3 cdata sets x 2 x 6 indents x {decode, prettify}; (b) every tree of <= 3 (quick) / "
         "4 (thorough) nodes over {text, comment, p, pre, script, void br, hidden div} x six formatter specifications x "
-        "{decode, prettify, decode_contents}; (c) seeded random trees (every string class, prefixed / void / hidden / "
+        "{decode, prettify, decode_contents}; (b') name case: sibling tags whose names differ only by case (Code/code/CODE, "
+        "script/SCRIPT, Style, pre/Pre) x cdata_containing_tags naming one spelling x flavour x class x way of passing x "
+        "{decode, prettify, each string's output_ready}; (c) seeded random trees (every string class, prefixed / void / hidden / "
         "whitespace-preserving elements, attribute values None / '' / str with quotes / list / tuple / number, XML and HTML "
         "flavours, parsed documents) x random formatter specification (object / name / function) x entry point (decode, "
         "prettify, decode_contents, encode, encode_contents, string output_ready) x indent level; attribute order: every "
@@ -335,7 +337,8 @@ def dec_result(m):
 
 
 # ------------------------------------------------------------------------------------------ generators
-NAMES = ["p", "b", "div", "a", "script", "style", "pre", "textarea", "br", "hr", "template", "rect", "x", "rt"]
+NAMES = ["p", "b", "div", "a", "script", "style", "pre", "textarea", "br", "hr", "template", "rect", "x", "rt",
+         "SCRIPT", "Style", "Code", "code", "CODE", "P", "Pre"]        # names are case sensitive everywhere in the formatter
 PREFIXES = [None, None, None, None, "svg", "", "xlink"]
 KEYS = ["id", "class", "href", "a", "aa", "a-b", "B", "Z", "data-x", "xml:lang", "é", "selected", "z"]
 VALUES = [["none"], ["str", ""], ["str", "v"], ["str", 'say "hi"'], ["str", "it's"], ["str", "\"both' "],
@@ -344,7 +347,7 @@ VALUES = [["none"], ["str", ""], ["str", "v"], ["str", 'say "hi"'], ["str", "it'
           ["str", "javascript:a&b<c"], ["str", "script"], ["str", "style&"], ["str", "&"], ["str", "<"]]
 TEXTS = ["text", " padded \n", "", "   ", "a<b&c>d", "é ≧̸ ≧", "&amp; &lt;", " x ", "]]>", "x\ny", "tea", "\t",
          "e a\"'", "AT&T &nosuch; &#233;", "<⃒ ="]
-PW_CHOICES = [None, [], ["pre", "textarea"], ["pre", "textarea"], ["p"]]
+PW_CHOICES = [None, [], ["pre", "textarea"], ["pre", "textarea"], ["p"], ["Pre", "code"]]
 FNS = [["lib", "xml"], ["lib", "html"], ["lib", "html5"], ["custom", 0], ["custom", 1], ["custom", 2], ["custom", 3],
        ["custom", 4], ["custom", 5], ["wrap", "html"], ["wrap", "xml"]]
 INDENTS = [["none"], ["int", -1], ["int", 0], ["int", 1], ["int", 3], ["int", 8], ["bool", True], ["bool", False],
@@ -352,6 +355,8 @@ INDENTS = [["none"], ["int", -1], ["int", 0], ["int", 1], ["int", 3], ["int", 8]
 VOIDS = ["/", "", " /", None]
 CDATAS = [None, ["set", []], ["set", ["script", "style"]], ["list", ["p"]], ["frozenset", ["b", "script"]],
           ["tuple", ["style", "pre", "x"]]]
+# for the random cases only (the exhaustive constructor grid keeps CDATAS): sets that differ from tag names by case
+CDATAS_RANDOM = CDATAS + [["set", ["Code"]], ["set", ["code", "P"]], ["list", ["CODE", "Style", "b"]], ["frozenset", ["SCRIPT", "pre"]]]
 LANGS = [None, "html", "xml", "", "other"]
 NAMES_TO_TRY = ["html", "html5", "html5-4.12", "minimal", None, "xml", "html5-4.12.0", "HTML", ""]
 MARKUPS = [
@@ -399,7 +404,7 @@ def gen_kw(rng, cls, dense=False):
     if rng.random() < p:
         kw["void_element_close_prefix"] = rng.choice(VOIDS)
     if rng.random() < p:
-        kw["cdata_containing_tags"] = copy.deepcopy(rng.choice(CDATAS))
+        kw["cdata_containing_tags"] = copy.deepcopy(rng.choice(CDATAS_RANDOM))
     if rng.random() < p:
         kw["empty_attributes_are_booleans"] = rng.choice([True, False])
     if rng.random() < 0.6:
@@ -740,6 +745,37 @@ def run_coqchk(ctx):
                                  "message": out.strip()[-800:]})
 
 
+def case_grid(ctx):
+    """Names are compared exactly: a tag is cdata-containing / whitespace-preserving iff its very name is in the set.
+    Siblings whose names differ only by case x sets naming one of the spellings x flavour x class x way of passing."""
+    spellings = ["Code", "code", "CODE", "script", "SCRIPT", "Style", "pre", "Pre"]
+    cases = []
+    for flavour in (None, False, True):
+        tree = E("Doc", [E(nm, [S(0, " a<b&é tea "), E("b", [S(0, "in<b")])], known_xml=flavour, pw=("pre", "Code"))
+                         for nm in spellings]
+                 + [E("SCRIPT", [S(8, "x<y&")], known_xml=flavour, pw=None)],
+                 known_xml=flavour, pw=("pre", "Code"))
+        specs = [{"way": "name", "name": "html"}, {"way": "name", "name": "minimal"},
+                 {"way": "function", "f": ["custom", 0]}]
+        for cls in ("Formatter", "HTMLFormatter", "XMLFormatter"):
+            for cd in (None, ["set", ["Code"]], ["set", ["code"]], ["list", ["CODE", "style"]], ["frozenset", ["SCRIPT", "Pre"]],
+                       ["set", ["script", "Style", "pre"]]):
+                for fn in (["lib", "xml"], ["custom", 0]):
+                    kw = {"entity_substitution": fn}
+                    if cd is not None:
+                        kw["cdata_containing_tags"] = cd
+                    specs.append({"way": "object", "cls": cls, "kw": kw})
+        for spec in specs:
+            for entry in ("decode", "prettify"):
+                cases.append({"tree": tree, "path": [], "soup": None, "fmt": spec, "entry": entry, "level": None})
+            # and each string on its own (NavigableString.output_ready)
+            for i in range(len(spellings) + 1):
+                cases.append({"tree": tree, "path": [i, 0], "soup": None, "fmt": spec, "entry": "str_output_ready", "level": None})
+    ctx.count("case_sensitivity_grid", len(cases))
+    check_render(ctx, cases, "name-case")
+    return cases
+
+
 def documented_examples(ctx, only=None):
     """the examples of doc/index.rst, with their printed results"""
     from bs4 import BeautifulSoup
@@ -1009,6 +1045,7 @@ def run(ctx):
         resolution_grid(ctx)
         probe = probe_grid(ctx)
         scope_nodes = small_scope(ctx)
+        case_cases = case_grid(ctx)
         attribute_orders(ctx)
         strs = alternation(ctx)
         rnd = random_cases(ctx, 40000 if ctx.thorough else 3000)
@@ -1032,14 +1069,14 @@ def run(ctx):
                          "output depends on attribute insertion order", r2["out"], r["out"], tag="insertion-order")
         ctx.count("insertion_order_twins", twins)
         n = 4000 if ctx.thorough else 300
-        sample = corpus + ctx.rng.sample(probe, min(len(probe), n)) + rnd[:n] + tw_cases[:n // 3]
+        sample = corpus + ctx.rng.sample(probe, min(len(probe), n)) + rnd[:n] + tw_cases[:n // 3] + case_cases[::7]
         subprocess_seeds(ctx, sample, strs[:4000] if ctx.thorough else strs[:1500])
         if ctx.tier == "thorough" and not ctx.search_mode:
             run_coqchk(ctx)
     ctx.extra_cov["exhaustive"] = True
     ctx.extra_cov["exhaustive_scope"] = ("constructor grid (all classes x all option values incl. omitted); resolution grid (chains <= 3); "
                                          "probe trees x option product x {decode, prettify}; every tree of <= %d nodes over 7 node kinds x 6 formatter "
-                                         "specifications x 3 entry points; attribute permutations (sets <= 3 "
+                                         "specifications x 3 entry points; the name-case grid; attribute permutations (sets <= 3 "
                                          "fully, a slice of size 4); every alternative of both entity regexes") % scope_nodes
 
 
